@@ -1,23 +1,6 @@
 #!/bin/bash
-# runs every seeded change (seeded/<ID> and seeded/<ID>b) against the quick check of its own property, each in its own
-# scratch worktree (never in /repo); writes seeded/RESULTS.txt. Up to 3 run at a time.
+# runs every seeded change (seeded/<ID>[b-f]) against the quick check of its own property, each in its own scratch
+# worktree (never in /repo), 5 at a time; then writes seeded/RESULTS.txt from the logs (tools/seedresults.sh).
 cd /verif
-out=seeded/RESULTS.txt
-tmp=$(mktemp -d)
-run() { n=$1; p=${n:0:3}; tools/seedrun.sh $n $p > $tmp/$n.txt 2>&1; }
-i=0
-for d in seeded/C*/; do
-  n=$(basename $d)
-  run $n &
-  i=$((i+1)); if [ $((i % 3)) -eq 0 ]; then wait; fi
-done
-wait
-: > $out
-for d in seeded/C*/; do
-  n=$(basename $d); p=${n:0:3}
-  r=$(grep "^seed=" $tmp/$n.txt)
-  v=$(grep -c "^VIOLATION" out/seed_${n}_${p}.log)
-  echo "$r violations=$v" >> $out
-done
-rm -rf $tmp
-cat $out
+ls seeded | grep "^C" | xargs -P 5 -I{} bash -c 'n={}; p=${n:0:3}; cd /verif; tools/seedrun.sh $n $p > /dev/null 2>&1'
+tools/seedresults.sh
